@@ -147,12 +147,14 @@ Set_pop(Bucket* self, PyObject* args)
         remove_result = Set_remove(self, remove_args);
         Py_DECREF(remove_args);
         if (remove_result) {
-            Py_INCREF(key);
+            /* hand the reference we got from minKey to the caller */
             result = key;
+            key = NULL;
             Py_DECREF(remove_result);
         }
     }
 
+    Py_XDECREF(key);
     return result;
 }
 
